@@ -18,7 +18,7 @@ trap 'cd /repo && git checkout -q -- . && git clean -fdq crates tests 2>/dev/nul
 res="$dst/confirm.log"; : > "$res"
 say() { echo "$@" | tee -a "$res"; }
 git apply --check "$dst/patch.diff" || { say "PATCH DOES NOT APPLY"; exit 1; }
-demo_file=$(ls "$dst"/demo/*.rs 2>/dev/null | head -1)
+demo_file="$dst/demo/seeded_demo.rs"; [ -f "$demo_file" ] || demo_file=$(ls "$dst"/demo/*.rs 2>/dev/null | head -1)
 crate=$(grep -m1 '^+++ b/crates/' "$dst/patch.diff" | sed 's#^+++ b/crates/\([^/]*\)/.*#\1#')
 demo_crate="${DEMO_CRATE:-$crate}"
 run_demo() {
